@@ -167,16 +167,12 @@ PROPS = {
     ),
     "C07": dict(
         level="other",
-        level_text="Kani proves, per width and for ALL values of the source type / all canonical Uint values, the exact Ok/Err classification, the payloads, and the wrapping/saturating forms of "
-                   "every integer conversion entry point (13 primitive types in both directions, Uint-to-Uint for 9 width pairs, the limb-slice constructors for every length 0..LIMBS+2); "
-                   "loops are closed by LIMBS, so each harness is complete for its width. Verus additionally proves, for ALL widths and all values, the two base cases every primitive-integer conversion "
-                   "funnels into - TryFrom<u64> and TryFrom<u128>: Ok(v) exactly when v < 2^BITS, else ValueTooLarge(BITS, v mod 2^BITS) (incl. the one-limb, two-limb and BITS = 0 special cases) - const_from_u64, and in the other direction TryFrom<&Uint> for u64 (the to_int! expansion) and for u128: Ok(value) exactly when it fits, else Overflow(BITS, value mod 2^64 resp. 2^128, MAX); "
-                   "and the limb-slice constructors for slices of ANY length - overflowing_from_limbs_slice returns (value mod 2^BITS, value >= 2^BITS) for the number the slice denotes, "
-                   "from_limbs_slice / checked_ / wrapping_ / saturating_from_limbs_slice follow - with the Uint-to-Uint conversions built on them for ALL pairs of widths "
-                   "(UintTryFrom<Uint>: Ok(v) iff v < 2^BITS else ValueTooLarge(BITS, v mod 2^BITS); UintTryTo<Uint>: Overflow(BITS_DST, v mod 2^BITS_DST, MAX); from_uint, checked_from_uint); "
-                   "and every macro-generated primitive conversion, extracted from the macro expansion (unit conv_prim): TryFrom<bool/u8/u16/u32/usize> (forwarders), "
-                   "TryFrom<i8/i16/i32/i64/i128/isize> (non-negative: as unsigned; negative: ValueNegative(BITS, two's-complement image mod 2^BITS)), "
-                   "TryFrom<&Uint> for u8/u16/u32/usize/i8/i16/i32/i64/isize (Ok(value) iff value < 2^capacity, else Overflow(BITS, low limb truncated to the type, MAX))",
+        level_text="Verus proves for ALL widths and all values: TryFrom<u64> and TryFrom<u128> (Ok(v) exactly when v < 2^BITS, else ValueTooLarge(BITS, v mod 2^BITS), incl. the one-limb, two-limb and BITS = 0 cases), "
+                   "const_from_u64, every macro-generated primitive conversion taken from the macro expansion (TryFrom<bool/u8/u16/u32/usize>; TryFrom<i8/i16/i32/i64/i128/isize>: non-negative as unsigned, negative gives "
+                   "ValueNegative(BITS, two's-complement image mod 2^BITS); TryFrom<&Uint> for u8/u16/u32/u64/usize/u128/i8/i16/i32/i64/isize: Ok(value) iff value < 2^capacity, else Overflow(BITS, low bits truncated to the type, MAX)), "
+                   "the limb-slice constructors for slices of ANY length (overflowing_from_limbs_slice = (value mod 2^BITS, value >= 2^BITS); from_ / checked_ / wrapping_ / saturating_from_limbs_slice) and the Uint-to-Uint conversions "
+                   "for ALL pairs of widths (UintTryFrom<Uint>, UintTryTo<Uint>, from_uint, checked_from_uint). Kani proves, per width and for ALL values of the source type / all canonical Uint values, the exact Ok/Err classification, "
+                   "the payloads, and the wrapping/saturating forms of every conversion entry point incl. the generic from / to families (13 primitive types in both directions, Uint-to-Uint for 9 width pairs, limb slices of every length 0..LIMBS+2)",
         level_note="all-widths proof for every primitive integer type in both directions except Uint -> bool and Uint -> i128 (Kani per width), the limb-slice constructors and Uint-to-Uint; "
                    "the generic entry points from / wrapping_from / saturating_from / to / wrapping_to / saturating_to dispatch through the UintTryFrom / UintTryTo traits on a type parameter and are Kani per width (10 widths); "
                    "ASSUMED in unit conv_prim: iN::is_negative (Kani core_specs, full domain); declared rewrites there: callee named by its impl, `#[verifier::truncate]` added to the truncating `as` casts (Rust's semantics of `as`), the two associated consts of to_int! inlined; "
@@ -184,7 +180,7 @@ PROPS = {
                    "declared rewrites in TryFrom<u128>: Self::try_from(value as u64) is named by its impl, `.and_then(|n| Err(..))` is replaced by its definition (closures over Result are outside the Verus subset); "
                    "limb slices longer than LIMBS+2 not covered; "
                    "should_panic harnesses prove that the panic is reachable and nothing else fails (plus an unreachable end-of-harness cover), not a universally quantified 'always panics'",
-        technique="Kani contract harnesses (pre/postconditions on the compiled crate), complete per width; native replay of counterexamples; deductive contracts (Verus, all widths) for the u64/u128 base cases",
+        technique="deductive contracts (Verus, all widths) on the integer, limb-slice and Uint-to-Uint conversions; Kani contract harnesses (pre/postconditions on the compiled crate), complete per width, for every entry point incl. the generic from/to families; native replay of counterexamples",
         units=["core", "basics", "bitlen", "conv", "conv_slice", "conv_prim"],
         kani=dict(
             features=None,
